@@ -6,11 +6,11 @@ import (
 	"errors"
 	"fmt"
 	"os"
+	"sort"
 	"strings"
 
 	"github.com/foxboron/go-uefi/efi/attributes"
 	efs "github.com/foxboron/go-uefi/efi/fs"
-	"github.com/foxboron/go-uefi/efi/signature"
 	"github.com/foxboron/go-uefi/efi/util"
 	"github.com/foxboron/go-uefi/efivar"
 	"github.com/foxboron/go-uefi/efivarfs"
@@ -32,6 +32,19 @@ func (p *probeValue) Unmarshal(b *bytes.Buffer) error {
 
 func canonGUIDText(g util.EFIGUID) string {
 	return fmt.Sprintf("%08x-%04x-%04x-%02x%02x-%02x%02x%02x%02x%02x%02x", g.Data1, g.Data2, g.Data3, g.Data4[0], g.Data4[1], g.Data4[2], g.Data4[3], g.Data4[4], g.Data4[5], g.Data4[6], g.Data4[7])
+}
+
+// the recorded calls with long write buffers abbreviated to their length and first bytes (for failure reports)
+func c11ShortLog(log []string) string {
+	out := make([]string, len(log))
+	for i, l := range log {
+		if strings.HasPrefix(l, "write(") && len(l) > 80 {
+			h := strings.TrimSuffix(strings.TrimSuffix(strings.TrimPrefix(l, "write("), "!"), ")")
+			l = fmt.Sprintf("write(%d bytes: %s…)%s", len(h)/2, h[:32], map[bool]string{true: "!"}[strings.HasSuffix(l, "!")])
+		}
+		out[i] = l
+	}
+	return strings.Join(out, " ")
 }
 
 func c11EvalWrite(c *Ctx, cs Case) {
@@ -64,12 +77,17 @@ func c11EvalWrite(c *Ctx, cs Case) {
 			old := efs.Fs
 			efs.SetFS(rec)
 			defer efs.SetFS(old)
-			err = attributes.WriteEfivarsWithGuid(name, attributes.Attributes(attrs), value, g)
+			if api == "legacy-name" {
+				// the by-name form: the library chooses the vendor GUID; cs["guid"] is the GUID the variable lives under
+				err = attributes.WriteEfivars(name, attributes.Attributes(attrs), value)
+			} else {
+				err = attributes.WriteEfivarsWithGuid(name, attributes.Attributes(attrs), value, g)
+			}
 		}
 	})
 	log := rec.Log()
 	fail := func(what, spec string) {
-		c.Fail(Failure{Kind: "property", What: what + " (" + api + " API)", Case: cs, Go: clip(strings.Join(log, " ")), Spec: clip(spec)})
+		c.Fail(Failure{Kind: "property", What: what + " (" + api + " API)", Case: cs, Go: clip(c11ShortLog(log)), Spec: clip(spec)})
 	}
 	if pan {
 		fail("writing a variable panicked: "+msg, "")
@@ -162,7 +180,7 @@ func c11EvalRead(c *Ctx, cs Case) {
 	g := guidFromWire(unhx(cs.S("guid")))
 	required := uint32(cs.I("required"))
 	file := cs.S("file")
-	c.Count(cs.Key(), true, "read/"+cs.S("class"))
+	c.Count(cs.Key(), true, "read/"+cs.S("api")+"/"+cs.S("class"))
 	mem := afero.NewMemMapFs()
 	path := dir + "/" + name + "-" + canonGUIDText(g)
 	var stored []byte
@@ -175,17 +193,39 @@ func c11EvalRead(c *Ctx, cs Case) {
 	oldDir := attributes.Efivars
 	attributes.Efivars = dir
 	defer func() { attributes.Efivars = oldDir }()
-	fw := fswrapper.NewMemoryWrapper()
-	fw.SetFS(rec)
-	e := &efivarfs.EFIFS{FSWrapper: fw}
+	api := cs.S("api")
+	if api == "" {
+		api = "object"
+	}
 	var pv probeValue
 	var got attributes.Attributes
 	var err error
 	pan, msg := safely(func() {
-		got, err = e.GetVarWithAttributes(efivar.Efivar{Name: name, GUID: &g, Attributes: attributes.Attributes(required)}, &pv)
+		if api == "object" {
+			fw := fswrapper.NewMemoryWrapper()
+			fw.SetFS(rec)
+			e := &efivarfs.EFIFS{FSWrapper: fw}
+			got, err = e.GetVarWithAttributes(efivar.Efivar{Name: name, GUID: &g, Attributes: attributes.Attributes(required)}, &pv)
+			return
+		}
+		// the legacy readers return the stored mask and the bytes after it; they know no required attributes
+		// (the generator gives these cases required = 0)
+		old := efs.Fs
+		efs.SetFS(rec)
+		defer efs.SetFS(old)
+		var buf *bytes.Buffer
+		if api == "legacy-name" {
+			// the by-name form: the library chooses the vendor GUID; the file is stored under cs["guid"]
+			got, buf, err = attributes.ReadEfivars(name)
+		} else {
+			got, buf, err = attributes.ReadEfivarsWithGuid(name, g)
+		}
+		if err == nil && buf != nil {
+			pv.Unmarshal(buf)
+		}
 	})
 	fail := func(what, spec string) {
-		c.Fail(Failure{Kind: "property", What: what, Case: cs, Go: clip(fmt.Sprintf("attrs=%d err=%v decoded=%v value=%s", got, err, pv.called, hx(pv.got))), Spec: clip(spec)})
+		c.Fail(Failure{Kind: "property", What: what + " (" + api + " API)", Case: cs, Go: clip(fmt.Sprintf("attrs=%d err=%v decoded=%v calls=[%s] value=%s", got, err, pv.called, strings.Join(rec.Log(), " "), hx(pv.got))), Spec: clip(spec)})
 	}
 	if pan {
 		fail("reading a variable panicked: "+msg, "")
@@ -254,6 +294,10 @@ func c11Gen(c *Ctx) {
 		attrs uint32
 	}
 	var defs []def
+	faults := []struct {
+		k    int
+		kind string
+	}{{0, "error"}, {1, "error"}, {1, "short1"}, {1, "short0"}, {2, "error"}}
 	for _, v := range predefinedEfivars() {
 		defs = append(defs, def{v.Name, *v.GUID, uint32(v.Attributes)})
 		defs = append(defs, def{v.Name, *v.GUID, uint32(v.Attributes) | 0x40}) // the same variable with APPEND_WRITE
@@ -275,10 +319,7 @@ func c11Gen(c *Ctx) {
 		// and the failure is reported
 		if i%4 == 0 || c.Thorough {
 			for _, api := range []string{"object", "legacy"} {
-				for _, f := range []struct {
-					k    int
-					kind string
-				}{{0, "error"}, {1, "error"}, {1, "short1"}, {1, "short0"}, {2, "error"}} {
+				for _, f := range faults {
 					c11EvalWrite(c, Case{"op": "write", "api": api, "class": k + "/fault-" + f.kind + fmt.Sprint(f.k), "dir": dirs[i%len(dirs)], "name": hx([]byte(d.name)), "guid": hx(wireGUID(d.guid)), "attrs": int64(d.attrs), "value": hx(values[k]), "fault": f.kind, "faultk": int64(f.k)})
 				}
 			}
@@ -296,13 +337,136 @@ func c11Gen(c *Ctx) {
 			c11EvalRead(c, Case{"op": "read", "class": "short-or-absent", "dir": dirs[i%len(dirs)], "name": hx([]byte(d.name)), "guid": hx(wireGUID(d.guid)), "required": int64(req), "file": short})
 		}
 	}
-	// a signed update and a database through the typed accessors
-	_ = signature.NewSignatureDatabase
+	// ---- the legacy by-name API (attributes.WriteEfivars / ReadEfivars): the library derives the vendor GUID from the
+	// name.  Per UEFI 2.x section 32.6.1 (and the comment above attributes.ImageSecurityDatabases) exactly db, dbx, dbt
+	// and dbr live under EFI_IMAGE_SECURITY_DATABASE_GUID; every other variable this API is documented to know is a
+	// global variable.  Names: every predefined definition under one of those two GUIDs (the file must be the one the
+	// object API uses for the same definition), the four database names, and variations of all of them (suffixes,
+	// truncations, case changes), which are not database names unless they coincide with one.
+	secdb := util.EFIGUID{Data1: 0xd719b2cb, Data2: 0x3d3a, Data3: 0x4596, Data4: [8]byte{0xa3, 0xbc, 0xda, 0xd0, 0x0e, 0x67, 0x65, 0x6f}}
+	global := util.EFIGUID{Data1: 0x8be4df61, Data2: 0x93ca, Data3: 0x11d2, Data4: [8]byte{0xaa, 0x0d, 0x00, 0xe0, 0x98, 0x03, 0x2b, 0x8c}}
+	isDbName := map[string]bool{"db": true, "dbx": true, "dbt": true, "dbr": true}
+	byName := map[string]def{}
+	var nameOrder []string
+	addName := func(n string, attrs uint32) {
+		if _, dup := byName[n]; dup || n == "" || strings.Contains(n, "/") {
+			return
+		}
+		g := global
+		if isDbName[n] {
+			g = secdb
+		}
+		byName[n] = def{n, g, attrs}
+		nameOrder = append(nameOrder, n)
+	}
+	for _, v := range predefinedEfivars() {
+		if *v.GUID == global || *v.GUID == secdb {
+			addName(v.Name, uint32(v.Attributes))
+			if byName[v.Name].guid != *v.GUID {
+				c.Fail(Failure{Kind: "property", What: "the predefined definition " + v.Name + " is not under the vendor GUID UEFI section 32.6.1 gives that name", Case: Case{"name": v.Name}})
+			}
+		}
+	}
+	for n := range isDbName {
+		addName(n, 0x27)
+	}
+	sort.Strings(nameOrder)
+	for _, base := range append([]string{}, nameOrder...) {
+		a := byName[base].attrs
+		for _, sfx := range []string{"Default", "x", "t", "r", "2", "0001"} {
+			addName(base+sfx, a)
+		}
+		addName(base[:len(base)-1], a)
+		addName(strings.ToUpper(base), a)
+		addName(strings.ToLower(base), a)
+		addName(strings.ToUpper(base[:1])+base[1:], a)
+		addName(strings.ToLower(base[:1])+base[1:], a)
+	}
+	c.Note("legacy_by_name_names", len(nameOrder))
+	for i, n := range nameOrder {
+		if c.NFailures() >= 6 {
+			return
+		}
+		d := byName[n]
+		k := vk[i%len(vk)]
+		dir := dirs[i%len(dirs)]
+		for _, attrs := range []uint32{d.attrs, d.attrs | 0x40} {
+			c11EvalWrite(c, Case{"op": "write", "api": "legacy-name", "class": k, "dir": dir, "name": hx([]byte(d.name)), "guid": hx(wireGUID(d.guid)), "attrs": int64(attrs), "value": hx(values[k])})
+		}
+		if i%4 == 0 || c.Thorough {
+			for _, f := range faults {
+				c11EvalWrite(c, Case{"op": "write", "api": "legacy-name", "class": k + "/fault-" + f.kind + fmt.Sprint(f.k), "dir": dir, "name": hx([]byte(d.name)), "guid": hx(wireGUID(d.guid)), "attrs": int64(d.attrs), "value": hx(values[k]), "fault": f.kind, "faultk": int64(f.k)})
+			}
+		}
+		file := make([]byte, 4)
+		binary.LittleEndian.PutUint32(file, d.attrs)
+		file = append(file, values[k]...)
+		for _, api := range []string{"legacy-name", "legacy"} {
+			c11EvalRead(c, Case{"op": "read", "api": api, "class": "stored", "dir": dir, "name": hx([]byte(d.name)), "guid": hx(wireGUID(d.guid)), "required": int64(0), "file": hx(file)})
+			short := []string{"absent", "-", "07", "070000"}[i%4]
+			c11EvalRead(c, Case{"op": "read", "api": api, "class": "short-or-absent", "dir": dir, "name": hx([]byte(d.name)), "guid": hx(wireGUID(d.guid)), "required": int64(0), "file": short})
+		}
+	}
+	// ---- value sizes: the contract is one write whatever the size of the value (a dbx is tens of kilobytes).  Buffers
+	// (attributes + value) of 2^k-1, 2^k, 2^k+1 bytes around the usual I/O buffer and page sizes, and signature
+	// databases with many entries, through every API, healthy and with the faults above; and read back.
+	var sizes []int
+	for _, k := range []uint{9, 12, 13, 15, 16} {
+		if k >= 15 && !c.Thorough && k != 16 {
+			continue
+		}
+		for _, dlt := range []int{-1, 0, 1} {
+			sizes = append(sizes, 1<<k+dlt-4)
+		}
+	}
+	type big struct {
+		class string
+		value []byte
+	}
+	var bigs []big
+	for _, n := range sizes {
+		bigs = append(bigs, big{fmt.Sprintf("size-%d", n), randBytes(c, n)})
+	}
+	for _, n := range []int{100, 400, c.N(1000, 3000)} { // databases of n SHA-256 entries
+		var sigs [][2][]byte
+		for j := 0; j < n; j++ {
+			sigs = append(sigs, [2][]byte{u.owners[j%2], randBytes(c, 32)})
+		}
+		bigs = append(bigs, big{fmt.Sprintf("database-%d-entries", n), encodeList(tSHA256, nil, 48, sigs)})
+	}
+	bigDefs := []def{{efivar.Dbx.Name, *efivar.Dbx.GUID, uint32(efivar.Dbx.Attributes)}, {efivar.Dbx.Name, *efivar.Dbx.GUID, uint32(efivar.Dbx.Attributes) | 0x40},
+		{efivar.KEK.Name, *efivar.KEK.GUID, uint32(efivar.KEK.Attributes)}, {"MyVar", guidFromWire(randBytes(c, 16)), 0x07}}
+	for i, b := range bigs {
+		if c.NFailures() >= 6 {
+			return
+		}
+		for j, d := range bigDefs {
+			if !c.Thorough && (i+j)%2 == 1 {
+				continue
+			}
+			dir := dirs[(i+j)%len(dirs)]
+			apis := []string{"object", "legacy"}
+			if d.guid == global || d.guid == secdb {
+				apis = append(apis, "legacy-name")
+			}
+			for _, api := range apis {
+				c11EvalWrite(c, Case{"op": "write", "api": api, "class": "large/" + b.class, "dir": dir, "name": hx([]byte(d.name)), "guid": hx(wireGUID(d.guid)), "attrs": int64(d.attrs), "value": hx(b.value)})
+				if f := faults[(i+j)%len(faults)]; (i+j)%4 == 0 || c.Thorough {
+					c11EvalWrite(c, Case{"op": "write", "api": api, "class": "large/fault-" + f.kind + fmt.Sprint(f.k), "dir": dir, "name": hx([]byte(d.name)), "guid": hx(wireGUID(d.guid)), "attrs": int64(d.attrs), "value": hx(b.value), "fault": f.kind, "faultk": int64(f.k)})
+				}
+			}
+			file := make([]byte, 4)
+			binary.LittleEndian.PutUint32(file, d.attrs)
+			file = append(file, b.value...)
+			c11EvalRead(c, Case{"op": "read", "api": "object", "class": "large", "dir": dir, "name": hx([]byte(d.name)), "guid": hx(wireGUID(d.guid)), "required": int64(d.attrs), "file": hx(file)})
+			c11EvalRead(c, Case{"op": "read", "api": "legacy", "class": "large", "dir": dir, "name": hx([]byte(d.name)), "guid": hx(wireGUID(d.guid)), "required": int64(0), "file": hx(file)})
+		}
+	}
 }
 
 func init() {
 	register("C11", &PropDef{
-		Rule:   "every predefined efivar.Efivar (25, each also with APPEND_WRITE added) and random (name, GUID, attribute) definitions x values {empty, boolean, UTF-16 string, signature database, raw} x three efivars directories x the object API (EFIFS over FSWrapper.SetFS) and the legacy attributes.* API (fs.SetFS), on a recording afero.Fs, healthy and with one failing or short call (OpenFile error, Write error, Write one byte short, Write of zero bytes, Close error); reads with stored masks {equal, superset, subset, disjoint} and absent / 0..3-byte files, with a probe value that records whether decoding was attempted. Every case is non-trivial; distinct = distinct cases.",
+		Rule:   "every predefined efivar.Efivar (25, each also with APPEND_WRITE added) and random (name, GUID, attribute) definitions x values {empty, boolean, UTF-16 string, signature database, raw} x three efivars directories x the object API (EFIFS over FSWrapper.SetFS) and the legacy attributes.* API (fs.SetFS), on a recording afero.Fs, healthy and with one failing or short call (OpenFile error, Write error, Write one byte short, Write of zero bytes, Close error); reads with stored masks {equal, superset, subset, disjoint} and absent / 0..3-byte files, with a probe value that records whether decoding was attempted. The legacy by-name API (attributes.WriteEfivars / ReadEfivars, which derives the vendor GUID from the name): every predefined definition under the global or image-security-database GUID, the four database names db/dbx/dbt/dbr, and suffix / truncation / case variations of all of them (not database names unless they coincide with one), written (also with APPEND_WRITE and with the faults) and read (also through ReadEfivarsWithGuid) against the file <Name>-<GUID of the definition>. Value sizes: buffers of 2^k-1, 2^k, 2^k+1 bytes (k = 9, 12, 13, 16; thorough also 15) and SHA-256 databases of 100 / 400 / 1000 (thorough 3000) entries through every API, healthy and faulted, and read back. Every case is non-trivial; distinct = distinct cases.",
 		Assume: []string{"variable names contain no '/' and the efivars directory is a clean absolute path (path.Join would otherwise rewrite them)", "the legacy writer additionally probes the immutable flag of the same path on the real OS filesystem (attr.IsImmutable); that probe is outside the recorded afero.Fs and is noted, not checked"},
 		Eval:   c11Eval, Gen: c11Gen,
 	})
